@@ -28,7 +28,7 @@ RULE = (
 ASSUMPTIONS = ["a non-eval sync replaces the whole parameter/attribute, name included (pinned by the repository's own tests)",
                "names unique per scope except deliberate re-binding; function bodies hold no named definitions"]
 CORE_ALLOWED = ()
-FRONTIER_KNOBS = ("valued_input", "cross_kind", "bad_address", "out_fn_has_defaults", "module_doc", "valued_same_name")
+FRONTIER_KNOBS = ("valued_input", "cross_kind", "bad_address", "out_fn_has_defaults", "module_doc", "valued_same_name", "chained_pairs")
 FLOORS = {"pairs>=2": 0.05, "wrap": 0.1, "eval": 0.02}
 WRAPS = (None, None, "Optional[{output_param}]", "Optional[Union[{output_param}, str]]")
 
@@ -64,7 +64,29 @@ def _has_default(tree, path):
 
 
 @st.composite
+def _chained(draw):
+    """Two pairs in one call where the INPUT address of the first is also an OUTPUT address of the second, and the slot the
+    first pair writes comes earlier in the output file than the node the second pair addresses:
+    (A.x -> B.y), (C.w -> A.x) with class B before class A in the output file."""
+    a, b, c = draw(st.permutations(("Alpha", "Beta", "Gamma")))
+    x, y, w = draw(st.permutations(("x", "y", "w")))
+    ann = lambda n, t, v: {"k": "ann", "name": n, "typ": t, "value": v}
+    cls = lambda n, body: {"k": "class", "name": n, "body": body}
+    inp = {"doc": None, "trailing_newline": True, "body": [
+        cls(a, [ann(x, "int", "1")]), cls(c, [ann(w, "str", "'s'")]),
+        {"k": "def", "name": "helper", "first": None, "args": [{"name": x, "typ": None, "default": "0"}], "kwonly": [], "kwarg": None, "ret": "return 1"}]}
+    out = {"doc": None, "trailing_newline": draw(st.booleans()), "body": [
+        {"k": "assign", "name": "CONST", "value": "1"},
+        cls(b, [ann(y, "float", "2.0"), ann("keep", "int", "3")]),
+        cls(a, [ann(x, "bytes", "b''"), ann("other", "int", "4")])]}
+    return {"input": inp, "output": out, "pairs": [[[a, x], [b, y]], [[c, w], [a, x]]],
+            "wrap": draw(st.sampled_from((None, None, WRAPS[1]))), "eval": False, "cli": draw(st.booleans())}
+
+
+@st.composite
 def _case(draw, knob):
+    if knob == "chained_pairs" or (knob is None and draw(st.integers(0, 11)) == 0):
+        return draw(_chained())
     ev = (knob is None and draw(st.integers(0, 4)) == 0) or (knob == "out_fn_has_defaults" and draw(st.booleans()))
     out = draw(progs.module(min_size=2, max_size=5, rebind=False))
     out["doc"] = "Module docstring." if knob == "module_doc" else None  # re-indented on read: a shape of its own
